@@ -46,6 +46,12 @@ CHECKS = {
  "C20": ("exploration", "property-based testing (proptest) with a needle-in-haystack oracle over emitted datagrams and captured log records at every log level; real-binary output scan",
          "For generated seeds and request mixes at each log level, every emitted datagram and formatted log record is scanned for every 16-byte/24-char window of the seed and derived private material in raw, hex and base64 forms; a positive control proves the haystack is live.",
          "Needle windows with fewer than 6 distinct byte values are skipped (degenerate seeds collide with honest zero/0xff fields). Chance collisions ~2^-128.", "DESIGN.md §3 C20"),
+ "C01": ("fault_enumeration", "fault enumeration + property-based testing (proptest) of forged responses against the real client binary; independent lenient reference verifier as oracle",
+         "Every single-component forgery class named in the property is enumerated in a fixed table (and every byte offset / truncation length in thorough) and thousands of generated forgery plans are delivered to the real client process by a UDP mock; the verdict is computed on the delivered bytes by an independent verifier, and the client must fail without printing a time whenever that verdict is 'not authentic'. Nonce freshness is checked across all runs.",
+         "Trusted base: refproto.rs lenient verifier (authentic-biased), ring. Forgeries that would need a signature forgery are out of reach of any black-box search. The client is driven as a process (exit status, stdout, stderr).", "DESIGN.md §3 C01"),
+ "C03": ("exploration", "property-based testing (proptest) + grid enumeration of honest exchanges between the real client binary and (a) a reference responder, (b) the real in-process Server behind a relay",
+         "For both protocols, all key options, output modes, 1..=4 requests and every path depth (all 64x64 size/position pairs in thorough) the client must exit 0, print exactly the signed midpoint converted from the protocol's unit and report verified iff a key was given.",
+         "Only responses the strict verifier accepts count as honest. Midpoints from the epoch to 9999-12-31; local-time formatting is not exercised (-z).", "DESIGN.md §3 C03"),
 }
 
 NOT_YET = {}
